@@ -191,7 +191,7 @@ let print_tok = function
   | TL l -> String.concat "," ("Z" :: List.map Big_int_Z.string_of_big_int l)
   | TB b -> hx b
 
-let cl_suite_id = function "toy" -> bi 0 | "toy2" -> bi 4 | "micro" -> bi 5 | "cl1024" -> bi 1 | "cl2048" -> bi 2 | "cl3072" -> bi 3 | s -> failwith ("cl suite " ^ s)
+let cl_suite_id = function "toy" -> bi 0 | "toy2" -> bi 4 | "micro" -> bi 5 | "toy3" -> bi 6 | "cl1024" -> bi 1 | "cl2048" -> bi 2 | "cl3072" -> bi 3 | s -> failwith ("cl suite " ^ s)
 
 let run_cl (op : string) (args : string array) (draws : (string * string) list) : tokv list outcome =
   let a i = args.(i) in
